@@ -232,7 +232,7 @@ class Prop:
             'operations, Deliver, Flush, Register, Refresh); a case is non-trivial when at least one route reaches '
             'the mirror and at least one withdrawal is drained; distinct = distinct (configuration, sequence of '
             'drained message sets)')
-    exhaustive = {'quick': False, 'thorough': False}
+    exhaustive = {'quick': False, 'thorough': False}   # thorough adds a complete depth-4 sweep of a 9-letter alphabet
     trusted_base = [
         'the RIB (table/src/lib.rs) is abstracted to its change stream: a RIB label is the NlriChange the table emits; the '
         'theorems assume the stream is truthful (flags/replaced id say what changed: the contract property C06 states of the '
@@ -289,8 +289,8 @@ class Prop:
         return out
 
     # ---- generation
-    def gen_cfg(self, rng):
-        nsrc = rng.choice([2, 3])
+    def gen_cfg(self, rng, crowded=False):
+        nsrc = rng.choice([3, 4]) if crowded else rng.choice([2, 3])
         role = rng.choice([EBGP, EBGP, IBGP, RSC])
         srcs = []
         for k in range(nsrc):
@@ -298,13 +298,17 @@ class Prop:
             asn = LOCAL_ASN if srole in (IBGP, RRC) else 65010 + k
             srcs.append((k + 1, srole, asn))
         addr = rng.choice([1, 9, 9])           # 1 = the neighbour is also source 0 (echo)
-        mx = rng.choice([1, 1, 2, 3])
+        if crowded:
+            # the neighbour's own routes (source 0) rank first for equal tokens: the add-path
+            # window must be taken after they are filtered out
+            addr = rng.choice([1, 1, 9])
+        mx = rng.choice([2, 2, 3, 1]) if crowded else rng.choice([1, 1, 2, 3])
         return dict(max=mx, aptx=mx > 1, role=role, addr=addr, cluster=rng.random() < 0.3,
                     policy=rng.random() < 0.5, srcs=srcs)
 
-    def gen_ops(self, rng, cfg, n):
+    def gen_ops(self, rng, cfg, n, crowded=False):
         nsrc = len(cfg['srcs'])
-        nets = rng.choice([2, 3, 4])
+        nets = rng.choice([1, 2]) if crowded else rng.choice([2, 3, 4])
         ops = []
         if rng.random() < 0.8:
             # some routes before the session comes up
@@ -313,6 +317,8 @@ class Prop:
         ops.append(('register',))
         for _ in range(n):
             x = rng.random()
+            if crowded and x < 0.25:
+                x = 0.0           # more announcements: destinations with several candidates
             if x < 0.30:
                 ops.append(('ins', rng.randrange(nsrc), rng.randrange(nets), rng.randrange(4),
                             int(rng.random() < 0.12), int(rng.random() < 0.08)))
@@ -338,11 +344,32 @@ class Prop:
 
     def gen_cases(self, rng, tier):
         cases = []
-        n = 300 if tier == 'quick' else 3000
-        for _ in range(n):
-            cfg = self.gen_cfg(rng)
-            cases.append(dict(cfg=cfg, ops=self.gen_ops(rng, cfg, rng.randint(3, 25))))
+        n = 1200 if tier == 'quick' else 6000
+        for k in range(n):
+            crowded = k % 3 == 2
+            cfg = self.gen_cfg(rng, crowded)
+            cases.append(dict(cfg=cfg, ops=self.gen_ops(rng, cfg, rng.randint(3, 25), crowded)))
+        if tier == 'thorough':
+            cases += self.sweep(4)
         return cases
+
+    def sweep(self, depth):
+        """every schedule of the given length over a 9-letter alphabet (two prefixes competing for
+        dest_id 0, two sources, deliver / flush / refresh), after one announced prefix and Register;
+        non-add-path and add-path neighbour"""
+        import itertools
+        al = [('ins', 0, 0, 1, 0, 0), ('ins', 1, 0, 0, 0, 0), ('rem', 0, 0), ('rem', 1, 0),
+              ('ins', 0, 1, 2, 0, 0), ('rem', 0, 1), ('deliver',), ('flush',), ('refresh',)]
+        out = []
+        for mx in (1, 2):
+            cfg = dict(max=mx, aptx=mx > 1, role=EBGP, addr=9, cluster=False, policy=False,
+                       srcs=[(1, EBGP, 65010), (2, EBGP, 65011)])
+            for seq in itertools.product(al, repeat=depth):
+                if mx == 2 and seq[0][0] in ('deliver', 'flush'):
+                    continue      # halve the add-path sweep
+                out.append(dict(cfg=cfg, ops=[('ins', 0, 1, 1, 0, 0), ('register',)] + list(seq) +
+                                [('deliver',)] * 4 + [('flush',)]))
+        return out
 
     # ---- running
     # An observation is a pair: [export-level run, session-level run].
